@@ -23,7 +23,7 @@ RULE = (
     "-r <spec> for spec spellings list / kN / kB / n / b / 4dn (any letter case) on a genome of >=1024 bins. "
     "Oracle: model coarsening; expected level set = targets U bases. Non-trivial = >=2 derived levels of which "
     ">=1 has a non-base predecessor. Distinct by sha1 of the canonical case."
-    ' CLI cases also draw one or two --field specs (either order, different aggregates) on a base with a second value column, a finer base through --base-uri (COOL_PATH coarser), additional bases through --base-uri that no requested resolution derives from, -r 4DN on genomes up to 7 Mb, and --legacy (integer-labelled quad-tree levels, recognition, every level against the model).'
+    ' CLI cases also draw one or two --field specs (either order, different aggregates) on a base with a second value column, bases written by an older schema version (no storage-mode attribute: symmetric-upper by definition; every level must read in that mode and its full-matrix view must be the symmetric completion); a finer base through --base-uri (COOL_PATH coarser), additional bases through --base-uri that no requested resolution derives from, -r 4DN on genomes up to 7 Mb, and --legacy (integer-labelled quad-tree levels, recognition, every level against the model).'
 )
 ASSUMPTIONS = [
     "with mutually inconsistent bases a derived level must equal the coarsening of SOME base that divides it (validity predicate)",
@@ -138,6 +138,12 @@ def check_zoom(case, ctx: Ctx):
             call("create base", create_from_model, uri, bt_m, rows_m, symmetric, cols=("count", "x"),
                  bins_extra={"weight": np.arange(nb, dtype=float) / 4 + 0.5}, metadata={"base": m},
                  assembly="asm" + str(m), dtypes={"count": np.dtype(bdt)}, h5opts={"compression": None})
+            if symmetric and case["chunksize"] % 3 == 0:
+                # a base written by an older schema version: no storage-mode attribute (symmetric-upper by definition)
+                fp_, gp_ = (uri.split("::") + ["/"])[:2]
+                with h5py.File(fp_, "r+") as f_:
+                    if "storage-mode" in f_[gp_].attrs:
+                        del f_[gp_].attrs["storage-mode"]
             bases[m] = (uri, bt_m, rows_m)
         out = os.path.join(work, "out.mcool")
         resolutions = [unit * t for t in case["targets"]]
@@ -153,9 +159,13 @@ def check_zoom(case, ctx: Ctx):
                 check(set(listed) <= want_only, f"a refused zoomify left derived levels behind: {listed}")
             ctx.record(case, True, ["zoom", "non-derivable"])
             return
-        call(f"zoomify_cooler(bases={[unit * m for m in case['base_mults']]}, resolutions={resolutions})",
+        # the resolutions as a list, a tuple, an integer array, or a one-shot iterable (generator / map object)
+        rform = ["list", "tuple", "array", "generator", "map", "list"][(len(case["rows"]) + len(resolutions)) % 6]
+        res_arg = {"list": list, "tuple": tuple, "array": lambda r: np.array(r, dtype=np.int64), "generator": lambda r: (x for x in r),
+                   "map": lambda r: map(int, r)}[rform](resolutions)
+        call(f"zoomify_cooler(bases={[unit * m for m in case['base_mults']]}, resolutions={resolutions} as {rform})",
              cooler.zoomify_cooler, base_uris if len(base_uris) > 1 or case["chunksize"] == 1 else base_uris[0],
-             out, resolutions, case["chunksize"], nproc=case["nproc"], **kw)
+             out, res_arg, case["chunksize"], nproc=case["nproc"], **kw)
         levels = sorted(set(case["targets"]) | set(case["base_mults"]))
         want_list = [f"/resolutions/{unit * t}" for t in levels]
         got_list = list_coolers(out)
@@ -169,7 +179,16 @@ def check_zoom(case, ctx: Ctx):
             got_px = _read(clr, cols)
             with h5py.File(out, "r") as f:
                 probs = schema.validate(f[f"/resolutions/{unit * t}"])
+            if t in case["base_mults"] and symmetric and case["chunksize"] % 3 == 0:
+                # the faithful copy of an older-schema base has no storage-mode attribute either
+                probs = [p_ for p_ in probs if "storage-mode" not in p_]
             check(not probs, lambda: f"level {unit * t} violates the schema: {probs[:3]}")
+            check(clr.storage_mode == ("symmetric-upper" if symmetric else "square"),
+                  lambda: f"level {unit * t} is read in storage mode {clr.storage_mode!r}, the bases are {'symmetric-upper' if symmetric else 'square'}")
+            if t not in bases and not probs:
+                D_ = model.dense([r[:3] for r in got_px], len(got_bins), symmetric, 0) if cols[0] == "count" or True else None
+                A_ = clr.matrix(balance=False, field=cols[0])[:]
+                check(np.array_equal(A_, D_), lambda: f"level {unit * t}: the full-matrix view is not the {'symmetric completion' if symmetric else 'stored matrix'} of its pixel table")
             if model.true_binsize(bt) is not None:
                 lvl_bt = model.coarsen_bins(bt, t) if t > 1 else bt
                 want_bs = unit * t if model.true_binsize(lvl_bt) is not None else None
